@@ -73,26 +73,27 @@ type Obligation struct {
 }
 
 type Exec struct {
-	w        *World
-	pkg      *PkgInfo
-	fn       *FuncInfo
-	obls     []*Obligation
-	facts    map[int]*Term
-	factKeys map[int]*Term
-	locTypes map[string]types.Type
-	quiet    int
-	depth    int
-	names    map[string]int
-	prefix   []string
-	warnings map[string]bool
-	actSeq   int
-	frames   []*Frame
-	inputs   []*Term
-	inlined  map[string]bool
-	axioms   []*Term // quantified background axioms (count functions etc.)
-	ufRange  map[string]*Term
-	noFacts  bool
-	counts   map[string]*countDef
+	freshRefs []*Term // objects allocated while executing the function under verification
+	w         *World
+	pkg       *PkgInfo
+	fn        *FuncInfo
+	obls      []*Obligation
+	facts     map[int]*Term
+	factKeys  map[int]*Term
+	locTypes  map[string]types.Type
+	quiet     int
+	depth     int
+	names     map[string]int
+	prefix    []string
+	warnings  map[string]bool
+	actSeq    int
+	frames    []*Frame
+	inputs    []*Term
+	inlined   map[string]bool
+	axioms    []*Term // quantified background axioms (count functions etc.)
+	ufRange   map[string]*Term
+	noFacts   bool
+	counts    map[string]*countDef
 }
 
 func newExec(w *World, pkg *PkgInfo, fn *FuncInfo) *Exec {
@@ -318,6 +319,9 @@ func (x *Exec) merge(a, b *State) *State {
 				continue
 			}
 			panic(engineErr("merge: location %s has different shapes", key))
+		}
+		if va.Kind == KScalar && va.S.Sort != vb.S.Sort {
+			panic(engineErr("merge: location %s has sorts %v / %v", key, va.S.Sort, vb.S.Sort))
 		}
 		out.store[key] = zip2(va, vb, func(p, q *Term) *Term { return Ite(ra, p, q) })
 	}
